@@ -212,14 +212,14 @@ def model_crash_part(rep, rng, thorough):
     recovered by the real OpenStore (verdict: CrashTrace/Durable.tla as for all scenarios), and the recovered contents are
     compared with the set of contents the model's crash stages recover (conformance figure, not a verdict)."""
     pl, il, mc = (33, 30, 5) if thorough else (33, 30, 4)
-    consts = {"Vals": "{0, 5}", "PriLimit": pl, "IdxLimit": il, "MaxCalls": mc, "WithGC": "FALSE", "LowUses": "{101}", "Deadlines": "{0}", "CommitOrder": '"pif"', "Faults": '{"crash"}'}
+    consts = {"Vals": "{0, 5}", "PriLimit": pl, "IdxLimit": il, "MaxCalls": mc, "WithGC": "FALSE", "LowUses": "{101}", "Deadlines": "{0}", "IDeadlines": "{0}", "CommitOrder": '"pif"', "Faults": '{"crash"}'}
     r0 = vlib.tlc_must("MCStoreCrash", "MCStoreCrash_mc.cfg", consts=consts, timeout=3000)
     if r0.violated:
         raise vlib.Infra("StoreCrash.tla violates Durable / NoLiveFreed / Refines - replay the counter-example first:\n" + r0.out[-2500:])
     rep.add_model(r0)
     # the same invariants with everything switched on: both collectors, primary GC cycles stopped by a time limit, reopen and
     # crash in any order (model-checked only; the histories executed below are those without the collectors)
-    full = dict(consts, MaxCalls=6 if thorough else 5, WithGC="TRUE", LowUses="{0, 101}", Deadlines="{0, 1, 2}", Faults='{"crash", "reopen"}')
+    full = dict(consts, MaxCalls=6 if thorough else 5, WithGC="TRUE", LowUses="{0, 101}", Deadlines="{0, 1, 2}", IDeadlines="{0, 1, 2}", Faults='{"crash", "reopen"}')
     r1 = vlib.tlc_must("MCStoreCrash", "MCStoreCrash_mc.cfg", consts=full, timeout=3000)
     if r1.violated:
         raise vlib.Infra("StoreCrash.tla (collectors + time limits + crash + reopen) violates its invariants - replay the counter-example first:\n" + r1.out[-2500:])
